@@ -6,6 +6,7 @@ import Driver.PathsCmd
 import Driver.GuardCmd
 import Driver.AutoCmd
 import Driver.DdeCmd
+import Driver.GridCmd
 open Lean PyRates.Driver
 
 def dispatch (comp : String) (j : Json) : Except String Json :=
@@ -20,6 +21,7 @@ def dispatch (comp : String) (j : Json) : Except String Json :=
   | "guard" => guardCmd j
   | "auto" => autoCmd j
   | "dde" => ddeCmd j
+  | "grid" => gridCmd j
   | _ => .error s!"unknown component {comp}"
 
 partial def loop (h : IO.FS.Stream) (out : IO.FS.Stream) : IO Unit := do
